@@ -216,14 +216,23 @@ fn exhaustive_lists_job(chunk: usize, chunks: usize, maxlen: usize) -> Stats {
 fn random_job(ctx: &Ctx, job: usize, iters: u64, maxlen: usize) -> Stats {
     let mut st = Stats::new();
     let mut rng = Rng::stream(ctx.seed, "C05.random", job as u64);
-    for _ in 0..iters {
-        let env: BDDEnv<usize> = BDDEnv::new();
+    let mut env_store: BDDEnv<usize> = BDDEnv::new();
+    for it in 0..iters {
+        if it % 300 == 0 {
+            env_store = BDDEnv::new(); // long-lived enough for freed operand addresses to be reused
+        }
+        let env = &env_store;
         let nvars = 3 + rng.usize(2);
         let uni = pick_labels(&mut rng, &LABEL_POOL, nvars);
         let vars = vars_of(&uni);
         let mk = |rng: &mut Rng| {
             let t = random_table_subset(rng, nvars as u32);
-            (build_in_env(&env, &t, &vars), t)
+            // a third of the operands are not built by this environment (plain unshared nodes)
+            if rng.chance(1, 3) {
+                (crate::conv::build_ref(&t, &vars), t)
+            } else {
+                (build_in_env(env, &t, &vars), t)
+            }
         };
         let len = rng.usize(maxlen + 1);
         let mut ops: Vec<(D, Tt)> = Vec::new();
@@ -237,7 +246,7 @@ fn random_job(ctx: &Ctx, job: usize, iters: u64, maxlen: usize) -> Stats {
                     // complementary pair
                     let c = rng.pick(&ops).clone();
                     let nt = c.1.not();
-                    ops.push((build_in_env(&env, &nt, &vars), nt));
+                    ops.push((build_in_env(env, &nt, &vars), nt));
                 }
                 _ => ops.push(mk(&mut rng)),
             }
@@ -245,13 +254,13 @@ fn random_job(ctx: &Ctx, job: usize, iters: u64, maxlen: usize) -> Stats {
         let refs: Vec<&(D, Tt)> = ops.iter().collect();
         let bs = bounds_for(len);
         for _ in 0..3 {
-            check_const(&mut st, &env, &uni, &refs, *rng.pick(&bs), "random");
+            check_const(&mut st, env, &uni, &refs, *rng.pick(&bs), "random");
         }
         let len2 = rng.usize(maxlen.min(4) + 1);
         let ops2: Vec<(D, Tt)> = (0..len2).map(|_| mk(&mut rng)).collect();
         let refs2: Vec<&(D, Tt)> = ops2.iter().collect();
         let cut = refs.len().min(4);
-        check_lists(&mut st, &env, &uni, &refs[..cut], &refs2, "random");
+        check_lists(&mut st, env, &uni, &refs[..cut], &refs2, "random");
         st.bump("random_cases");
         st.max("max_list_length", len as u64);
     }
